@@ -49,13 +49,20 @@ def _key(x) -> bytes:
 
 
 def _caller_deme(depth: int = 2):
+    """nearest deme frame on the stack, and whether that deme is still under construction"""
     f = sys._getframe(depth)
     while f is not None:
         s = f.f_locals.get("self")
         if isinstance(s, AbstractDeme):
-            return s
+            g = f
+            init = False
+            while g is not None and not init:
+                if g.f_locals.get("self") is s and g.f_code.co_name == "__init__":
+                    init = True
+                g = g.f_back
+            return s, init
         f = f.f_back
-    return None
+    return None, False
 
 
 class Recorder:
@@ -125,16 +132,17 @@ class Recorder:
 
     # ------------------------------------------------------------------ objective side
     def note_call(self, level: int, x, value: float) -> None:
-        d = _caller_deme(3)
+        d, init = _caller_deme(3)
         did = d.id if d is not None else "?"
+        phase = "init" if init else "run"
         g = self.goodness(value)
         self.good.add(g)
         call = [self.gid(x), ("G", g), self.inbox(x)]
         self.level_calls[level] = self.level_calls.get(level, 0) + 1
-        if self.batches and self.batches[-1][0] == did and self.batches[-1][1] == level:
+        if self.batches and self.batches[-1][0] == did and self.batches[-1][1] == level and self.batches[-1][3] == phase:
             self.batches[-1][2].append(call)
         else:
-            self.batches.append([did, level, [call]])
+            self.batches.append([did, level, [call], phase])
 
     def take_batches(self) -> list:
         b, self.batches = self.batches, []
